@@ -9,7 +9,6 @@ import (
 	"os"
 	"path/filepath"
 	"runtime"
-	"sort"
 	"strconv"
 	"strings"
 	"sync"
@@ -344,7 +343,7 @@ func c03(run *ev.Run, tier string) {
 	})
 	run.Set("cases_rebuilt_after_source_change", rebuilt)
 	c03Overlapping(run, tier, &st)
-	c03AfterFailedBuilds(run, &st)
+	afterFailedBuilds(run, "C03", func(f string, raw []byte, p *dec.Package) []problem { return digestProblems(f, p, &st) })
 	// the command line tool rebuilding to the same target after the payload shrank
 	if bin := nfpmBin(run); bin != "" {
 		cliRebuildSmaller(run, bin, "C03", func(f, how string, atTarget, fresh []byte) {
@@ -514,91 +513,3 @@ func c03Overlapping(run *ev.Run, tier string, st *digStats) {
 	run.Set("packages_built_while_others_were_in_flight", built)
 }
 
-// c03AfterFailedBuilds: builds that fail half-way (a script that does not exist,
-// a destination or link target no archive header can encode, a missing
-// changelog) are followed by a good build in the same process: its digests are
-// over its own bytes and it equals the package built before the failures.
-func c03AfterFailedBuilds(run *ev.Run, st *digStats) {
-	dir := newWorkDir("c03f")
-	defer removeWorkDir(dir)
-	w := func(name, body string) string {
-		p := filepath.Join(dir, name)
-		_ = os.WriteFile(p, []byte(body), 0o644)
-		mt := time.Unix(1300000000, 0)
-		_ = os.Chtimes(p, mt, mt)
-		return p
-	}
-	a, b, c := w("a.bin", strings.Repeat("first file\n", 300)), w("b.bin", strings.Repeat("second file\n", 500)), w("c.bin", "third\n")
-	script := w("post.sh", "#!/bin/sh\necho post\n")
-	mk := func() *gen.Spec {
-		s := &gen.Spec{Name: "afterfail", Arch: "amd64", Version: "1.0.0", Maintainer: "A <a@example.com>", Description: "d", MTime: 1400000000}
-		s.RPM.BuildHost = "verif-host"
-		s.Contents = []*gen.Content{{Src: a, Dst: "/opt/af/a.bin"}, {Src: b, Dst: "/opt/af/b.bin"}, {Src: c, Dst: "/opt/af/c.bin"},
-			{Type: "symlink", Src: "/opt/af/a.bin", Dst: "/opt/af/link"}}
-		s.Scripts.PostInstall = script
-		return s
-	}
-	good := mk().YAML()
-	bads := map[string]string{}
-	{
-		s := mk()
-		s.Scripts.PreRemove = filepath.Join(dir, "missing.sh")
-		bads["missing-script"] = s.YAML()
-		s = mk()
-		s.Contents = append(s.Contents, &gen.Content{Src: c, Dst: "/opt/af/m\x00nul"})
-		bads["nul-in-destination"] = s.YAML()
-		s = mk()
-		s.Contents = append(s.Contents, &gen.Content{Type: "symlink", Src: "/opt/af/t\x00nul", Dst: "/opt/af/zlink"})
-		bads["nul-in-link-target"] = s.YAML()
-		s = mk()
-		s.Changelog = filepath.Join(dir, "missing-changelog.yaml")
-		bads["missing-changelog"] = s.YAML()
-	}
-	var kinds []string
-	for k := range bads {
-		kinds = append(kinds, k)
-	}
-	sort.Strings(kinds)
-	old := runtime.GOMAXPROCS(0)
-	defer runtime.GOMAXPROCS(old)
-	var n int64
-	for _, f := range formats {
-		base := buildYAML(good, f)
-		if base.Err != nil || base.Panic != "" {
-			run.Violate("C03/"+f+"/build-error", map[string]any{"history": "baseline", "error": fmt.Sprint(base.Err, base.Panic)})
-			continue
-		}
-		for _, g := range []int{1, old} {
-			runtime.GOMAXPROCS(g)
-			for _, kind := range kinds {
-				for rep := 0; rep < 2; rep++ {
-					run.Case(fmt.Sprintf("after-failed-build|%s|%s|procs=%d|%d", f, kind, g, rep), true)
-					failed := buildYAML(bads[kind], f) // fails where the format reads or encodes the bad part (or not at all)
-					res := buildYAML(good, f)
-					n++
-					d := map[string]any{"failed_build": kind, "failed_build_error": fmt.Sprint(failed.Err), "gomaxprocs": g}
-					if res.Err != nil || res.Panic != "" {
-						d["error"] = fmt.Sprint(res.Err, res.Panic)
-						run.Violate("C03/"+f+"/after-failed-build/build-error", d)
-						continue
-					}
-					p := dec.Decode(f, res.Bytes, false)
-					if len(p.Errs) > 0 {
-						d["errors"] = p.Errs
-						run.Violate("C03/"+f+"/after-failed-build/undecodable", d)
-						continue
-					}
-					for _, pr := range digestProblems(f, p, st) {
-						d["detail"] = ev.Short(pr.detail, 500)
-						run.Violate("C03/"+f+"/after-failed-build/"+pr.kind, d)
-					}
-					if !bytes.Equal(res.Bytes, base.Bytes) {
-						run.Violate("C03/"+f+"/after-failed-build/differs-from-the-package-built-before", d)
-					}
-				}
-			}
-		}
-		runtime.GOMAXPROCS(old)
-	}
-	run.Set("packages_built_after_failed_builds", n)
-}
